@@ -400,6 +400,10 @@ class C19(Prop):
                             'text' if not isinstance(f.dataType, t.StringType) else 5)
                         if isinstance(f.dataType, (t.ArrayType,)) and isinstance(vals[i], str):
                             vals[i] = 5
+                        if isinstance(f.dataType, (t.ByteType, t.ShortType, t.IntegerType, t.LongType)) and rng.random() < .5:
+                            vals[i] = rng.random() < .5     # a bool is the Python type of BooleanType only
+                        if isinstance(f.dataType, t.ArrayType) and rng.random() < .3:
+                            vals[i] = t.Row('x')(1)         # a Row is a struct value, not an array
                         want_cls, done = 'TypeError', True
                     elif corrupt == 'range' and isinstance(f.dataType, (t.ByteType, t.ShortType, t.IntegerType, t.LongType)):
                         b = RANGES[f.dataType.typeName()]
@@ -446,6 +450,27 @@ class C19(Prop):
                 if list(back[0]) != list(row) or list(back[0].__fields__) != list(st.names):
                     return Mismatch('createDataFrame with a schema does not return the input row', pv(back[0]), pv(row),
                                     'C19:create-schema:roundtrip', relation='spec')
+                if len(set(st.names)) == len(st.names) and st.names:
+                    # the same row built with keywords (the Row constructor sorts the fields by name), and with one field
+                    # more than the schema has: the values must arrive under their own names, one value per column
+                    for extra in (False, True):
+                        kw = dict(zip(st.names, row))
+                        if extra:
+                            kw['zz_' + max(st.names, key=len)] = 7
+                        krow = t.Row(**kw)
+                        try:
+                            back = self.spark.createDataFrame([krow], st).collect()
+                        except Exception as e:  # pylint: disable=broad-except
+                            return Mismatch('createDataFrame(keyword-built row, schema).collect() raised', exc(e), pv(row),
+                                            'C19:create-schema:kw-exc', relation='spec')
+                        ctx.note('create-schema:keyword-row' + ('+extra' if extra else ''))
+                        if list(back[0].__fields__) != list(st.names) or len(back[0]) != len(st.names) or \
+                                [back[0][n] for n in st.names] != list(row):
+                            return Mismatch('createDataFrame(keyword-built row%s, schema) does not return the values under their field '
+                                            'names' % (' with one more field' if extra else ''),
+                                            {'fields': list(back[0].__fields__), 'values': pv(tuple(back[0]))},
+                                            {'fields': list(st.names), 'values': pv(tuple(row))},
+                                            'C19:create-schema:keyword-row', relation='spec')
             return None
         # row: pickle and asDict
         names = rng.sample(['a', 'b', 'c', 'd', 'e'], rng.randint(1, 4))
